@@ -684,9 +684,69 @@ def body_statement_programs():
             yield hdr + [g, outer, {"t": "qop", "op": {"o": "call", "n": "outer", "ps": [], "qs": [["q", None]]}}]
 
 
+NEAR_PARAMS = [
+    [["/", ["pi"], ["lit", "2"]], ["lit", "1.5707963"], ["lit", "1.57079632679"], ["lit", "1.5707963267948966"]],
+    [["lit", "0.7853981"], ["lit", "0.7853984"], ["/", ["pi"], ["lit", "4"]]],
+    [["lit", "1000000.25"], ["lit", "1000003.0"], ["+", ["lit", "1000000"], ["lit", "0.5"]], ["+", ["lit", "1000000"], ["lit", "1.0"]]],
+    [["lit", "1.0000001"], ["lit", "1.0000004"], ["lit", "1"], ["lit", "1.0"]],
+    [["neg", ["lit", "2.5000002"]], ["neg", ["lit", "2.5000009"]], ["-", ["lit", "0"], ["lit", "2.5000002"]]],
+]
+
+
+def near_equal_call_programs():
+    """user-defined parametrised gates called SEVERAL times in one program with parameter expressions that are nearly
+    equal (pi/2, 1.5707963, 1.57079632679, …), equal but written differently, or large (1000000.25 / 1000003.0): the
+    reader caches the unitary of a user gate under the text of the call — every call must still get its own angle"""
+    g1 = {"t": "gate", "n": "rot", "ps": ["p"], "qs": ["a"], "body": [{"o": "call", "n": "rx", "ps": [["id", "p"]], "qs": ["a"]}]}
+    g2 = {"t": "gate", "n": "crot", "ps": ["t", "s"], "qs": ["a", "b"],
+          "body": [{"o": "call", "n": "cu3", "ps": [["id", "t"], ["neg", ["/", ["pi"], ["lit", "2"]]], ["/", ["pi"], ["lit", "2"]]], "qs": ["a", "b"]},
+                   {"o": "call", "n": "rz", "ps": [["*", ["id", "s"], ["id", "t"]]], "qs": ["b"]}]}
+    g3 = {"t": "gate", "n": "outer", "ps": ["x"], "qs": ["a"], "body": [{"o": "call", "n": "rot", "ps": [["/", ["id", "x"], ["lit", "2"]]], "qs": ["a"]},
+                                                                       {"o": "call", "n": "rot", "ps": [["id", "x"]], "qs": ["a"]}]}
+    hdr = [{"t": "version"}, {"t": "incl", "f": "qelib1.inc"}, {"t": "qreg", "n": "q", "k": 2}, g1, g2, g3]
+    for fam in NEAR_PARAMS:
+        for order in (fam, fam[::-1]):
+            yield hdr + [{"t": "qop", "op": {"o": "call", "n": "rot", "ps": [e], "qs": [["q", i % 2]]}} for i, e in enumerate(order)]
+            yield hdr + [{"t": "qop", "op": {"o": "call", "n": "outer", "ps": [e], "qs": [["q", 0]]}} for e in order]
+            yield hdr + [{"t": "qop", "op": {"o": "call", "n": "crot", "ps": [e, order[0]], "qs": [["q", 0], ["q", 1]]}} for e in order]
+            yield hdr + [{"t": "qop", "op": {"o": "call", "n": "crot", "ps": [order[-1], e], "qs": [["q", i % 2], ["q", 1 - i % 2]]}}
+                         for i, e in enumerate(order)]
+        # one call on a whole register and the same call again
+        yield hdr + [{"t": "qop", "op": {"o": "call", "n": "rot", "ps": [fam[0]], "qs": [["q", None]]}},
+                     {"t": "qop", "op": {"o": "call", "n": "rot", "ps": [fam[1]], "qs": [["q", None]]}},
+                     {"t": "qop", "op": {"o": "call", "n": "rot", "ps": [fam[0]], "qs": [["q", 1]]}}]
+
+
+def redeclaration_programs():
+    """a register or a user gate declared twice (malformed for the standard), and the harmless neighbours (a gate named
+    like a register, the same body under two names)"""
+    x0 = {"t": "qop", "op": {"o": "call", "n": "x", "ps": [], "qs": [["q", 0]]}}
+    hdr = [{"t": "version"}, {"t": "incl", "f": "qelib1.inc"}, {"t": "qreg", "n": "q", "k": 2}, {"t": "creg", "n": "c", "k": 1}]
+    gx = {"t": "gate", "n": "g", "ps": [], "qs": ["a"], "body": [{"o": "call", "n": "x", "ps": [], "qs": ["a"]}]}
+    gz = {"t": "gate", "n": "g", "ps": [], "qs": ["a"], "body": [{"o": "call", "n": "z", "ps": [], "qs": ["a"]}]}
+    gp = {"t": "gate", "n": "g", "ps": ["p"], "qs": ["a"], "body": [{"o": "call", "n": "rx", "ps": [["id", "p"]], "qs": ["a"]}]}
+    call = {"t": "qop", "op": {"o": "call", "n": "g", "ps": [], "qs": [["q", 0]]}}
+    callp = {"t": "qop", "op": {"o": "call", "n": "g", "ps": [["pi"]], "qs": [["q", 0]]}}
+    yield hdr + [gx, call, gz, call]
+    yield hdr + [gx, gz, call]
+    yield hdr + [gx, gx, call]
+    yield hdr + [gx, call, gp, callp]
+    yield hdr + [gp, callp, gx, call]
+    yield hdr + [gx, x0, gz]
+    for kind in ("qreg", "creg"):
+        for name in ("q", "c"):
+            for k in (1, 2):
+                yield hdr + [{"t": kind, "n": name, "k": k}, x0]
+                yield hdr + [x0, {"t": kind, "n": name, "k": k}]
+    # not redeclarations
+    yield hdr + [dict(gx, n="q"), {"t": "qop", "op": {"o": "call", "n": "q", "ps": [], "qs": [["q", 1]]}}]
+    yield hdr + [gx, dict(gz, n="h2"), call, {"t": "qop", "op": {"o": "call", "n": "h2", "ps": [], "qs": [["q", 1]]}}]
+
+
 def tree_variant():
     """which repairs of the importer the checkout under verification has (read from its source with `ast`)"""
-    keys = ("if_skip", "if_rev", "barrier_checked", "empty_reg_ok", "body_dup", "empty_body_ok", "body_checked")
+    keys = ("if_skip", "if_rev", "barrier_checked", "empty_reg_ok", "body_dup", "empty_body_ok", "body_checked",
+            "redecl_checked")
     try:
         i = qasm_tables.import_tables()
     except Exception:
@@ -976,7 +1036,8 @@ def property_fails_text(text, lenient_if=False, refusal_ok=False):
     if st != st2:
         return True, "string mode and file mode disagree (%s vs %s)" % (st, st2)
     if verdict != "ok":
-        if verdict in MUST_REJECT and st == "ok":
+        must = MUST_REJECT | ({"redeclared"} if tree_variant()["redecl_checked"] else set())
+        if verdict in must and st == "ok":
             return True, "malformed / unsupported program (%s) imported as a circuit" % verdict
         return False, "standard: %s; importer: %s" % (verdict, st)
     if st != "ok":
@@ -1257,6 +1318,8 @@ class C04(PropertyCheck):
         self._run(ctx, res, list(if_value_programs()), ["stream=if-values"])
         self._run(ctx, res, list(empty_body_programs()), ["stream=empty-bodies"])
         self._run(ctx, res, list(body_statement_programs()), ["stream=body-statements"])
+        self._run(ctx, res, list(near_equal_call_programs()), ["stream=near-equal-calls"])
+        self._run(ctx, res, list(redeclaration_programs()), ["stream=redeclarations"])
         self._tok_progs = [p for p in uniq[::97]][:8]
         res.notes.append("exhaustive: every operand-shape tuple over {q[0], q[last], q, r[0], r[last], r} for 2-operand gates "
                          "(cx, CX, cz, cu1, user gate) on registers of sizes 1-3 x 1-3 and for 3-operand gates (ccx, user gate), "
@@ -1265,7 +1328,8 @@ class C04(PropertyCheck):
                          "for 1-3-operand gates, measure and barrier; `if(c==k)` for registers of 0-3 bits and every k up to "
                          "2^n+2 on accepted and on refused operations; gate definitions with an empty / barrier-only body (called, "
                          "broadcast, conditioned, nested, never called); every kind of malformed body statement in a called and in a "
-                         "never-called definition")
+                         "never-called definition; user-defined parametrised gates called several times with nearly equal, "
+                         "equal-but-differently-written and large parameter expressions")
         res.exhaustive = True
         res.notes.append("systematic: every qelib1 gate, U and CX x {indexed, whole-register broadcast, if on a 1-bit "
                          "register, if on a 2-bit register}; then generated programs and their malformed variants")
@@ -1315,7 +1379,7 @@ class C04(PropertyCheck):
         # — a tolerance that only exists while the checkout still has that bit order
         return property_fails(w["prog"], lenient_if=bool(w.get("_lenient_if")) and not tree_variant()["if_rev"])
 
-    def _stream(self, ctx):
+    def _stream(self, ctx, full=False):
         rng = ctx.rng
         g = Gen(rng)
         variant = tree_variant()
@@ -1332,7 +1396,13 @@ class C04(PropertyCheck):
             extra += list(empty_body_programs())
         if variant["body_checked"]:
             extra += list(body_statement_programs())
+        if variant["redecl_checked"]:
+            extra += list(redeclaration_programs())
         rng.shuffle(extra)
+        near = list(near_equal_call_programs())
+        rng.shuffle(near)
+        for p in near[: (len(near) if (ctx.thorough or full) else 14)]:
+            yield p
         for p in extra[: (len(extra) if ctx.thorough else 50)]:
             yield p
         # operand shapes first: element + containing register must be rejected, element + other register imported
@@ -1364,7 +1434,7 @@ class C04(PropertyCheck):
         t0 = time.time()
         # the recorded bit order of multi-bit `if` is tolerated only while the checkout still has it
         lenient = not tree_variant()["if_rev"]
-        for p in self._stream(ctx):
+        for p in self._stream(ctx, full=True):
             if time.time() - t0 > budget_s:
                 return
             if not self._in_sweep_class(p):
